@@ -103,13 +103,23 @@ static int setup_input(pipe_type *pipe, const uint8_t *data, size_t size)
   ((PIPE_WF((p)->pipe.in) & PIPE_WF((p)->pipe.out) & PIPE_WF((p)->pipe.err) &  \
     PIPE_WF((p)->pipe.exit) & B((p)->child.out == -1) & B((p)->child.err == -1) & DEADLINE_WF(p)) != 0)
 #define SRC_OK(k) ((k) >= num_sources || sources[k].process == NULL || INV_POLL(sources[k].process))
-#define SRCS_OK (sources != NULL && num_sources >= 1 && num_sources <= VERIF_NSRC && SRC_OK(0) && SRC_OK(1) && SRC_OK(2))
+/* the fourth source exists only in the thorough-tier instance (VERIF_NSRC == 4) */
+#if VERIF_NSRC >= 4
+#define AND_K3(e) && (e)
+#define OR_K3(e) || (e)
+#define PLUS_K3(e) + (e)
+#else
+#define AND_K3(e)
+#define OR_K3(e)
+#define PLUS_K3(e)
+#endif
+#define SRCS_OK (sources != NULL && num_sources >= 1 && num_sources <= VERIF_NSRC && SRC_OK(0) && SRC_OK(1) && SRC_OK(2) AND_K3(SRC_OK(3)))
 #define HAS_DL(k) ((k) < num_sources && sources[k].process != NULL && sources[k].process->deadline != -1)
 #define DL(k) (sources[k].process->deadline)
 /* for all k: phi(k) (explicit conjunction up to the bound) */
 #if VERIF_NSRC >= 3
-#define ALL_K(phi) (phi(0) && phi(1) && phi(2))
-#define ANY_K(phi) (phi(0) || phi(1) || phi(2))
+#define ALL_K(phi) (phi(0) && phi(1) && phi(2) AND_K3(phi(3)))
+#define ANY_K(phi) (phi(0) || phi(1) || phi(2) OR_K3(phi(3)))
 #elif VERIF_NSRC == 2
 #define ALL_K(phi) (phi(0) && phi(1))
 #define ANY_K(phi) (phi(0) || phi(1))
@@ -120,12 +130,17 @@ static int setup_input(pipe_type *pipe, const uint8_t *data, size_t size)
 #define EXPIRED_AT_ENTRY(k) (HAS_DL(k) && DL(k) <= OLD(g.now))
 #define NOT_EXPIRED_NOW(k) (!HAS_DL(k) || DL(k) > g.now)
 /* "the result r is such that phi(r)": case split instead of a symbolic index */
-#define AT_RV(phi) ((RV == 0 && phi(0)) || (RV == 1 && phi(1)) || (RV == 2 && phi(2)))
+#define AT_RV(phi) ((RV == 0 && phi(0)) || (RV == 1 && phi(1)) || (RV == 2 && phi(2)) OR_K3(RV == 3 && phi(3)))
 #define EXPIRED_NOW(k) (HAS_DL(k) && DL(k) <= g.now)
 #define NOT_LATER_THAN_0(k) (!HAS_DL(k) || DL(0) <= DL(k))
 #define NOT_LATER_THAN_1(k) (!HAS_DL(k) || DL(1) <= DL(k))
 #define NOT_LATER_THAN_2(k) (!HAS_DL(k) || DL(2) <= DL(k))
+#define NOT_LATER_THAN_3(k) (!HAS_DL(k) || DL(3) <= DL(k))
+#if VERIF_NSRC >= 4
+#define EARLIEST(r) (HAS_DL(r) && ((r) == 0 ? ALL_K(NOT_LATER_THAN_0) : (r) == 1 ? ALL_K(NOT_LATER_THAN_1) : (r) == 2 ? ALL_K(NOT_LATER_THAN_2) : ALL_K(NOT_LATER_THAN_3)))
+#else
 #define EARLIEST(r) (HAS_DL(r) && ((r) == 0 ? ALL_K(NOT_LATER_THAN_0) : (r) == 1 ? ALL_K(NOT_LATER_THAN_1) : ALL_K(NOT_LATER_THAN_2)))
+#endif
 
 CONTRACT(find_earliest_deadline)
 static size_t find_earliest_deadline(reproc_event_source *sources, size_t num_sources)
@@ -156,13 +171,13 @@ static size_t find_earliest_deadline(reproc_event_source *sources, size_t num_so
 #define EV_IS_EXPECTED(k) (!IN_RANGE(k) || SRC(k).events == EV_EXPECT(k))
 #define EV_ZERO(k) (!IN_RANGE(k) || SRC(k).events == 0)
 #define EV_NONZERO(k) (IN_RANGE(k) && SRC(k).events != 0)
-#define EV_COUNT ((EV_NONZERO(0) ? 1 : 0) + (EV_NONZERO(1) ? 1 : 0) + (EV_NONZERO(2) ? 1 : 0))
+#define EV_COUNT ((EV_NONZERO(0) ? 1 : 0) + (EV_NONZERO(1) ? 1 : 0) + (EV_NONZERO(2) ? 1 : 0) PLUS_K3(EV_NONZERO(3) ? 1 : 0))
 #define EV_SUBSET(k) (!IN_RANGE(k) || (B((SRC(k).events & ~((SRC(k).interests & 15) | EV_DEADLINE)) == 0) & (B(SRC(k).process != NULL) | B(SRC(k).events == 0))) != 0)
 #define EV_ONLY_VALID(k) (!HASP(k) || (IMPL(SRC(k).events & EV_IN, SRC(k).process->pipe.in != -1) & IMPL(SRC(k).events & EV_OUT, SRC(k).process->pipe.out != -1) & IMPL(SRC(k).events & EV_ERR, SRC(k).process->pipe.err != -1) & IMPL(SRC(k).events & EV_EXIT, SRC(k).process->pipe.exit != -1)) != 0)
-#define ONLY_DEADLINE_ON(r) (IN_RANGE(r) && SRC(r).events == EV_DEADLINE && ((r) == 0 || EV_ZERO(0)) && ((r) == 1 || EV_ZERO(1)) && ((r) == 2 || EV_ZERO(2)))
+#define ONLY_DEADLINE_ON(r) (IN_RANGE(r) && SRC(r).events == EV_DEADLINE && ((r) == 0 || EV_ZERO(0)) && ((r) == 1 || EV_ZERO(1)) && ((r) == 2 || EV_ZERO(2)) AND_K3((r) == 3 || EV_ZERO(3)))
 #define ONLY_DEADLINE_ON_EXPIRED(r) (ONLY_DEADLINE_ON(r) && EXPIRED_NOW(r))
 #define ONLY_DEADLINE_ON_EARLIEST(r) (ONLY_DEADLINE_ON(r) && EARLIEST(r))
-#define SOME_R(phi) (phi(0) || phi(1) || phi(2))
+#define SOME_R(phi) (phi(0) || phi(1) || phi(2) OR_K3(phi(3)))
 #define SLOTS_AS_ASKED(k) (!IN_RANGE(k) || (g.pl.poll_fdv[4 * (k)] == (HASP(k) ? SLOT_PIPE(k, 0) : -1) && g.pl.poll_fdv[4 * (k) + 1] == (HASP(k) ? SLOT_PIPE(k, 1) : -1) && g.pl.poll_fdv[4 * (k) + 2] == (HASP(k) ? SLOT_PIPE(k, 2) : -1) && g.pl.poll_fdv[4 * (k) + 3] == (HASP(k) ? SLOT_PIPE(k, 3) : -1) && IMPLIES(HASP(k), g.pl.poll_evv[4 * (k)] == POLLOUT && g.pl.poll_evv[4 * (k) + 1] == POLLIN && g.pl.poll_evv[4 * (k) + 2] == POLLIN && g.pl.poll_evv[4 * (k) + 3] == POLLIN)))
 /* the timeout handed to poll: the smaller of `timeout` and the time left until
    the earliest deadline (INFINITE counts as larger than everything) */
@@ -208,7 +223,7 @@ int reproc_start(reproc_t *process, const char *const *argv, reproc_options opti
   ENS("C14/reproc_start.misuse_is_einval", IMPLIES(!START_CALLABLE, RV == -EINVAL && OS_UNTOUCHED && IMPLIES(process != NULL, HANDLE_UNCHANGED)))
   ENS("C13/reproc_start.invalid_options_rejected_before_any_side_effect", IMPLIES(START_CALLABLE && OPT_REJECT(options, ARGV_NULL, ARGV0_OK), RV == -EINVAL && g.e.os_calls == OLD(g.e.os_calls) && g.fds.open == OLD(g.fds.open) && g.fds.lib == OLD(g.fds.lib) && g.child_pid == OLD(g.child_pid) && HANDLE_UNCHANGED))
   ENS("C14/reproc_start.invariant_kept", IMPLIES(process != NULL && !g.in_child, INV(process)))
-  ENS("C04/reproc_start.failure_leaves_handle_not_started", IMPLIES(START_CALLABLE && RV < 0 && !g.in_child, process->status == ST_NOT_STARTED && process->handle == -1 && PIPES_ALL_INVALID(process) && process->deadline == -1))
+  ENS("C04+C08+C15/reproc_start.failure_leaves_handle_not_started", IMPLIES(START_CALLABLE && RV < 0 && !g.in_child, process->status == ST_NOT_STARTED && process->handle == -1 && PIPES_ALL_INVALID(process) && process->deadline == -1))
   ENS("C04+C05+C06/reproc_start.failure_leaves_no_child", IMPLIES(START_CALLABLE && RV < 0 && !g.in_child, !g.child_live && (g.child_pid == 0 || g.child_reaped)))
   ENS("C05/reproc_start.failure_leaves_no_descriptor", IMPLIES(START_CALLABLE && RV < 0 && !g.in_child, g.fds.open == OLD(g.fds.open) && g.fds.lib == OLD(g.fds.lib)))
   ENS("C04/reproc_start.failure_is_real_cause", IMPLIES(START_CALLABLE && RV < 0 && !g.in_child && START_VALID && OLD(g.e.faults) == 0, (g.e.faults > 0 && RV == -g.e.first_errno) || ((g.child_fate == FATE_FAILED_EARLY || g.child_fate == FATE_FAILED_LATE) && RV == -g.child_fate_errno)))
